@@ -32,6 +32,7 @@ int sigaction(int signo, const struct sigaction *act, struct sigaction *old) {
     if (act) g_disp[signo] = *act;
     return 0;
 }
+int fcntl(int, int, ...) { return 0; }
 int pipe2(int fds[2], int) { int r = k_alloc(K_PIPE_R); if (r < 0) return -1; int w = k_alloc(K_PIPE_W); if (w < 0) { k_kind[r] = K_FREE; return -1; } k_peer[r] = w; k_peer[w] = r; fds[0] = r; fds[1] = w; return 0; }
 int eventfd(unsigned int init, int) { int fd = k_alloc(K_EVENTFD); if (fd >= 0) k_counter[fd] = init; return fd; }
 int epoll_create1(int) { return k_alloc(K_EPOLL); }
